@@ -231,6 +231,10 @@ func c10mutations(rng *rand.Rand, base []byte, pool *Pool) []c10str {
 	put(17, le(new(big.Int)), "0")
 	put(17, be32(new(big.Int).Sub(r, bigOne)), "r-1-bigendian")
 	put(17, le(new(big.Int).Add(r, randBig(rng, r))), "r+random")
+	ns := limbNeighbours(r, rng)
+	for k := 0; k < 4; k++ {
+		put(17, le(ns[rng.Intn(len(ns))]), "limb-neighbour-of-r")
+	}
 	for k := 0; k < 3; k++ {
 		f := rng.Intn(17)
 		if k == 0 {
